@@ -68,7 +68,7 @@ func genC15(maxOps int) func(t *rapid.T) c15Case {
 				c.Ops = append(c.Ops, c15Op{Kind: 1, Sender: snd, Topic: x, Burst: 1})
 			}
 		}
-		switch rapid.IntRange(0, 7).Draw(t, "template2") {
+		switch rapid.IntRange(0, 8).Draw(t, "template2") {
 		case 0:
 			// history template "quiet sessions": honest use in which nothing is ever held back - the local party sends first,
 			// the peers' messages follow - so every collection runs with an empty buffer; afterwards stragglers for the
@@ -87,6 +87,24 @@ func genC15(maxOps int) func(t *rapid.T) c15Case {
 			}
 			for i := 0; i < k; i++ {
 				c.Ops = append(c.Ops, c15Op{Kind: 1, Sender: 1, Topic: 600 + i, Burst: 1})
+			}
+		case 2:
+			// history template "one starts, more are opened": a sender fills its topics-in-flight allowance, ONE of those topics
+			// starts, the sender opens many more topics, finally everything is started (so that what was held is observed)
+			snd := rapid.IntRange(1, 3).Draw(t, "osender")
+			for i := 0; i < c.Limit; i++ {
+				c.Ops = append(c.Ops, c15Op{Kind: 0, Sender: snd, Topic: 820 + i, Burst: 1})
+			}
+			c.Ops = append(c.Ops, c15Op{Kind: 1, Sender: snd, Topic: 820 + rapid.IntRange(0, c.Limit-1).Draw(t, "ostart"), Burst: 1})
+			extra := rapid.IntRange(c.Limit+2, 2*c.Limit+4).Draw(t, "oextra")
+			for i := 0; i < extra; i++ {
+				c.Ops = append(c.Ops, c15Op{Kind: 0, Sender: snd, Topic: 840 + i, Burst: 1})
+			}
+			for i := 0; i < c.Limit; i++ {
+				c.Ops = append(c.Ops, c15Op{Kind: 1, Sender: snd, Topic: 820 + i, Burst: 1})
+			}
+			for i := 0; i < extra; i++ {
+				c.Ops = append(c.Ops, c15Op{Kind: 1, Sender: snd, Topic: 840 + i, Burst: 1})
 			}
 		case 1:
 			// history template "flood keep-alive": a sender goes far beyond its message limit on a topic that never starts
